@@ -101,6 +101,86 @@ theorem c19_get_returns_named (g : GS) (index : Int) (dial : Bool) (chain : Chai
           subst ho
           exact ⟨hinv', by simp, (fun s' e => by cases e; exact ⟨hi, hs, Int.not_lt.mp hgt⟩), tail, htail⟩
 
+/-! ### Overlapping, repeated and far-ahead fetches; the start-up fetch -/
+
+/-- With `current` read in the present state the overtaken lookup is the atomic one. -/
+theorem c19_stale_self (g : GS) (index : Int) (dial : Bool) (chain : Chain) :
+    getGuardianSetStale g g.cur index dial chain = getGuardianSet g index dial chain := by
+  unfold getGuardianSetStale
+  by_cases h : index ≤ g.cur
+  · simp only [h, if_true]
+  · simp only [h, if_false]
+    unfold getGuardianSet
+    simp only [h, if_false]
+
+/-- What an overtaken lookup fetched is still a range `updateGuardianSets` is `Fed` with: it starts at the `current+1` read
+earlier, i.e. at or below the present `current+1`. -/
+private theorem stale_fetch_fed {g : GS} {cur0 index : Int} (h0 : 0 ≤ cur0) (hle0 : cur0 ≤ g.cur)
+    (hgt : ¬ index ≤ cur0) (hlt : index < (two32 : Int)) {chain : Chain} {sets : List GSet}
+    (hf : fetchRange chain (u32 (cur0 + 1)) (u32 index) = some sets) : Fed g.cur sets := by
+  have h1 : (u32 (cur0 + 1) : Int) = cur0 + 1 := u32_of_nonneg (by omega) (by omega)
+  have h2 : (u32 index : Int) = index := u32_of_nonneg (by omega) hlt
+  obtain ⟨hc, hl⟩ := fetchLoop_contig chain _ _ sets hf
+  exact ⟨u32 (cur0 + 1), hc, by omega, contig_bound hc (by rw [hl]; omega)⟩
+
+/-- **Overlapping fetches keep positions and indexes together.** A lookup that read `current = cur0`, fetched
+`[cur0+1 .. i]` and was overtaken — the periodic updater or other lookups appended any number of sets in between, so its batch
+overlaps what is stored by now, partially or completely — still never panics, keeps the invariant, only appends, and returns
+the set with index `i`. (`cur0 = g.cur` is `c19_get_returns_named`; every far-ahead index `i < 2^32` is included.) -/
+theorem c19_overlapping_fetch_returns_named (g : GS) (cur0 index : Int) (dial : Bool) (chain : Chain)
+    (hinv : Inv g.cur g.list) (hc0 : 0 ≤ cur0) (hle0 : cur0 ≤ g.cur) (h0 : 0 ≤ index) (hlt : index < (two32 : Int))
+    (o : GetOut) (ho : o = getGuardianSetStale g cur0 index dial chain) :
+    Inv o.st.cur o.st.list ∧ o.res ≠ .panic ∧ (∀ s, o.res = .ok s → (s.index : Int) = index ∧ listAt o.st.list index = some s ∧ index ≤ o.st.cur) ∧
+    ∃ tail, o.st.list = g.list ++ tail := by
+  unfold getGuardianSetStale at ho
+  by_cases hle : index ≤ cur0
+  · simp only [hle, if_true] at ho
+    exact c19_get_returns_named g index dial chain hinv h0 hlt o ho
+  · simp only [hle, if_false] at ho
+    cases dial with
+    | false =>
+      simp at ho
+      subst ho
+      exact ⟨hinv, by simp, (fun s' e => by cases e), [], by simp⟩
+    | true =>
+      simp only [Bool.not_true, Bool.false_eq_true, if_false] at ho
+      cases hf : fetchRange chain (u32 (cur0 + 1)) (u32 index) with
+      | none =>
+        simp only [hf] at ho
+        subst ho
+        exact ⟨hinv, by simp, (fun s' e => by cases e), [], by simp⟩
+      | some sets =>
+        simp only [hf] at ho
+        obtain ⟨hinv', _, tail, htail⟩ := c19_index_invariant g sets hinv (stale_fetch_fed hc0 hle0 hle hlt hf)
+        have hpos : 0 < (update g sets).1.list.length := List.length_pos_iff.mpr hinv'.ne
+        have hlen' := hinv'.len
+        obtain ⟨c, hc, _⟩ := inv_listAt hinv' (i := (update g sets).1.cur) (by omega) (Int.le_refl _)
+        simp only [hc] at ho
+        by_cases hgt : index > (update g sets).1.cur
+        · simp only [hgt, if_true] at ho
+          subst ho
+          exact ⟨hinv', by simp, (fun s' e => by cases e), tail, htail⟩
+        · simp only [hgt, if_false] at ho
+          obtain ⟨s, hs, hi⟩ := inv_listAt hinv' h0 (by omega : index ≤ (update g sets).1.cur)
+          simp only [hs] at ho
+          subst ho
+          exact ⟨hinv', by simp, (fun s' e => by cases e; exact ⟨hi, hs, Int.not_lt.mp hgt⟩), tail, htail⟩
+
+/-- **The start-up fetch establishes the invariant** (main.go: `GetGuardianSetsFromChain(0)` → `NewGuardianSets`): the sets
+`0 … hi` fetched one after the other, in index order, make a list whose position `i` holds the set with index `i`; the
+constructor does not panic and announces set `hi`. -/
+theorem c19_boot_invariant (chain : Chain) (hi : Nat) (hhi : hi < two32) (sets : List GSet)
+    (hf : fetchRange chain 0 hi = some sets) :
+    ∃ g c, newGuardianSets sets = some (g, c) ∧ Inv g.cur g.list ∧ g.cur = hi ∧ c.index = hi := by
+  obtain ⟨hc, hl⟩ := fetchLoop_contig chain _ _ sets hf
+  have hl' : sets.length = hi + 1 := by omega
+  have hne : sets ≠ [] := fun e => by simp [e] at hl'
+  have hinv : Inv ((sets.length : Int) - 1) sets := ⟨by omega, hc, hne, by omega⟩
+  obtain ⟨c, hcur, hci⟩ := inv_listAt hinv (i := (sets.length : Int) - 1) (by omega) (Int.le_refl _)
+  refine ⟨⟨(sets.length : Int) - 1, sets⟩, c, ?_, hinv, by simp; omega, by omega⟩
+  unfold newGuardianSets getCurrent
+  simp only [hcur]
+
 /-- The fast path: an index at or below `current` is answered from the list without consulting the chain. -/
 private theorem get_fast (g : GS) (index : Int) (dial : Bool) (chain : Chain) (s : GSet)
     (hle : index ≤ g.cur) (hat : listAt g.list index = some s) :
@@ -146,6 +226,33 @@ theorem c19_queued_verified (g : GS) (v : Vaa) (recover : Bytes → Option Addr)
   unfold push at hq
   have hget := c19_get_returns_named g (v.gsIndex : Int) dial chain hinv (by omega) (by omega) _ rfl
   cases hr : (getGuardianSet g (v.gsIndex : Int) dial chain).res with
+  | err => simp [hr] at hq
+  | panic => simp [hr] at hq
+  | ok s =>
+    simp only [hr] at hq
+    cases hv : verifyVAA recover v s.keys with
+    | some e => simp [hv] at hq
+    | none =>
+      obtain ⟨keys, hk, h1, h2, h3⟩ := c19_verify_sound recover v s.keys hv
+      have := (hget.2.2.1 s hr).1
+      exact ⟨s, keys, rfl, by omega, hk, h1, h2, h3⟩
+
+/-- … and so is the overtaken `Push` (the driver replays every `gsget` / `push` line through the overtaken forms). -/
+theorem c19_push_stale_self (g : GS) (v : Vaa) (recover : Bytes → Option Addr) (dial : Bool) (chain : Chain) (hit room : Bool) :
+    pushStale g g.cur v recover dial chain hit room = push g v recover dial chain hit room := by
+  unfold pushStale push
+  rw [c19_stale_self]
+
+/-- **Queued ⇒ verified against the named set, also when the lookup was overtaken**: the threshold and the keys the gate
+applies are those of the set the VAA names, whatever other fetches completed in between. -/
+theorem c19_overlapping_queued_verified (g : GS) (cur0 : Int) (v : Vaa) (recover : Bytes → Option Addr) (dial : Bool) (chain : Chain)
+    (hit room : Bool) (hinv : Inv g.cur g.list) (hc0 : 0 ≤ cur0) (hle0 : cur0 ≤ g.cur) (hidx : v.gsIndex < two32)
+    (hq : (pushStale g cur0 v recover dial chain hit room).enq = true) :
+    ∃ s keys, (getGuardianSetStale g cur0 (v.gsIndex : Int) dial chain).res = .ok s ∧ s.index = v.gsIndex ∧ s.keys = some keys ∧
+      v.sigs ≠ [] ∧ quorum keys.length ≤ v.sigs.length ∧ C06.Valid recover v.sigs keys := by
+  unfold pushStale at hq
+  have hget := c19_overlapping_fetch_returns_named g cur0 (v.gsIndex : Int) dial chain hinv hc0 hle0 (by omega) (by omega) _ rfl
+  cases hr : (getGuardianSetStale g cur0 (v.gsIndex : Int) dial chain).res with
   | err => simp [hr] at hq
   | panic => simp [hr] at hq
   | ok s =>
@@ -336,6 +443,27 @@ example : (arrive (stateAfter demoG [demoGenuineFull]) demoForged).res = .invali
 example : (arrive (stateAfter demoG [demoGenuineFull]) demoForged).enq = false := by decide
 -- and the genuine one, pushed again after the forged copy, is queued
 example : (arrive (stateAfter demoG [demoGenuineFull, demoForged]) { demoGenuineFull with room := true }).enq = true := by decide
+
+/-- sets 2 (three keys) and 3 (one key) exist on chain; everything else is an empty key list -/
+def demoChain2 : Chain := fun i => if i = 2 then some (some [kA, kB, kC]) else if i = 3 then some (some [kC]) else some (some [])
+/-- the explorer knows 0..1 when the lookup of set 3 starts; another lookup appends set 2 before its batch `[2,3]` arrives -/
+def demoG01 : GS := ⟨1, [⟨0, some [kA]⟩, ⟨1, some [kB]⟩]⟩
+def demoG012 : GS := (getGuardianSet demoG01 2 true demoChain2).st
+example : demoG012 = ⟨2, [⟨0, some [kA]⟩, ⟨1, some [kB]⟩, ⟨2, some [kA, kB, kC]⟩]⟩ := by decide
+example : Inv demoG012.cur demoG012.list := ⟨by decide, ⟨rfl, rfl, rfl, trivial⟩, by decide, by decide⟩
+-- partially overlapping batch [2,3] on 0..2: only set 3 is appended, and it is what the lookup returns
+example : (getGuardianSetStale demoG012 1 3 true demoChain2).res = .ok ⟨3, some [kC]⟩ := by decide
+example : (getGuardianSetStale demoG012 1 3 true demoChain2).st.list.map (·.index) = [0, 1, 2, 3] := by decide
+-- repeated batch [2] on 0..2: nothing is appended
+example : (getGuardianSetStale demoG012 1 2 true demoChain2).st = demoG012 := by decide
+-- a VAA of the three-key set 2 with one signature is refused after the overlap (threshold 3, not set 1's 1)
+example : (pushStale demoG012 1 ⟨1, 2, [⟨0, [1]⟩], demoBody⟩ demoRec true demoChain2 false true).res = .invalid .noQuorum := by decide
+-- far ahead: the chain is 12 sets ahead of the explorer; one lookup fetches all of them, every index then answers with its own set
+def demoFar : GS := (getGuardianSet demoG 12 true demoChain2).st
+example : demoFar.cur = 12 ∧ demoFar.list.map (·.index) = [0, 1, 2, 3, 4, 5, 6, 7, 8, 9, 10, 11, 12] := by decide
+example : ((List.range 13).all fun i => match (getGuardianSet demoFar i false demoChain2).res with | .ok s => s.index == i | _ => false) = true := by decide
+-- start-up
+example : (fetchRange demoChain2 0 3).map (·.map (·.index)) = some [0, 1, 2, 3] := by decide
 
 /-! ## Concurrent lookups while sets are appended (fine-grained model `Whv.Explorer.Fine`) -/
 section Interleaving
